@@ -93,7 +93,11 @@ const SITE_INSTALLED: u8 = 5;
 const SITE_ANNOUNCED: u8 = 6;
 /// region_cached `initialize/latest-loaded` (marker placed, latest value loaded, not yet cloned)
 const SITE_LOADED: u8 = 7;
-const NSITES: usize = 8;
+/// any ArcSwap / atomic operation of either crate (`sync`, reported just before the operation):
+/// parks a thread between two arbitrary adjacent synchronisation steps, also in windows that a
+/// change to the library creates and no named point anticipates
+const SITE_SYNC: u8 = 8;
+const NSITES: usize = 9;
 
 const SITE_LABEL: [&str; NSITES] = [
     "user-callback(clone/initialiser-fn)",
@@ -104,6 +108,7 @@ const SITE_LABEL: [&str; NSITES] = [
     "installed(before-recheck)",
     "announced(before-load)",
     "latest-loaded(before-clone)",
+    "sync-op(before-any-ArcSwap/atomic-operation)",
 ];
 
 /// Installed as the `__verif` point hook of both crates.
@@ -114,6 +119,7 @@ fn point_hook(name: &'static str) {
         "initialize/uninitialized-seen" => SITE_INIT_BEGUN,
         "initialize/announced" => SITE_ANNOUNCED,
         "initialize/latest-loaded" => SITE_LOADED,
+        "sync" => SITE_SYNC,
         "initialize/cloned" | "initialize/initialized" => SITE_PRODUCED,
         "with_in_region/initialized" => SITE_INSTALLED,
         _ => return,
@@ -310,7 +316,7 @@ struct Step {
 #[derive(Debug, Clone, Serialize, Deserialize)]
 struct Gate {
     reader: u16,
-    /// where the reader is parked (see `SITE_*`; taken modulo 6, mapped per crate)
+    /// where the reader is parked (see `SITE_*`; taken modulo NSITES, mapped per crate)
     #[serde(default)]
     site: u8,
     /// fires the k-th time (1-based) the reader passes that site in the main phase
@@ -369,11 +375,12 @@ fn case_strategy() -> impl Strategy<Value = Case> {
             prop::collection::vec(
                 (
                     any::<u16>(),
-                    prop_oneof![5 => Just(SITE_USER), 6 => 1u8..NSITES as u8],
+                    prop_oneof![4 => Just(SITE_USER), 5 => 1u8..SITE_SYNC, 6 => Just(SITE_SYNC)],
                     prop_oneof![5 => Just(1u8), 3 => Just(2u8), 2 => 3u8..=5],
+                    1u8..=40,
                     prop::collection::vec(step_strategy(9), 1..5),
                 )
-                    .prop_map(|(reader, site, k, actions)| Gate { reader, site, k, actions }),
+                    .prop_map(|(reader, site, k, ksync, actions)| Gate { reader, site, k: if site == SITE_SYNC { ksync } else { k }, actions }),
                 0..5,
             ),
         )
@@ -736,7 +743,7 @@ impl Run<'_> {
         self.stack.iter().any(|(r, _, site)| {
             // a thread parked in user code or just before installing still has its marker in the
             // slot unless a write removed it since
-            matches!(*site, SITE_USER | SITE_PRODUCED | SITE_ANNOUNCED | SITE_LOADED) && self.holds[*r].is_some_and(|x| mine.is_none_or(|m| m == x))
+            matches!(*site, SITE_USER | SITE_PRODUCED | SITE_ANNOUNCED | SITE_LOADED | SITE_SYNC) && self.holds[*r].is_some_and(|x| mine.is_none_or(|m| m == x))
         })
     }
 
